@@ -316,6 +316,9 @@ def grids(draw, max_side=5):
     v = draw(st.lists(val, min_size=n, max_size=n))
     if all(x >= THR for x in v):
         v[0] = 1.0
+    # energies in other units: admissible voxels may carry energies just below the 1e7 cut-off (path totals then exceed it)
+    sc = draw(st.sampled_from([1.0, 1.0, 1.0, 1e3, 1.9e6]))
+    v = [x * sc if x < THR and x * sc < THR else x for x in v]
     return np.array(v).reshape(shape).tolist()
 
 
@@ -334,6 +337,28 @@ def ring_grids(draw):
     if all(x >= THR for x in v):
         v[0] = 1.0
     return np.array(v).reshape(shape).tolist()
+
+
+@st.composite
+def corridor_grids(draw):
+    """n parallel corridors between a start rail and a stop rail (walls on the far side and at the end, so that the periodic boundary offers no
+    short cut): corridor k has the barrier 100 - k but lies k steps away along the rails, so the cheapest route uses the nearest, highest
+    barrier, and a search that lowers the barrier route by route needs one round per corridor; n up to 70"""
+    n = draw(st.sampled_from([3, 8, 31, 33, 34, 41, 65, 70]))
+    F = np.full((4, n + 1, 1), 1e8)
+    F[0, :n, 0] = 1.0
+    F[2, :n, 0] = 1.0
+    F[1, :n, 0] = 100.0 - np.arange(n)
+    return F.tolist()
+
+
+@st.composite
+def corridor_cases(draw, tier):
+    F = draw(corridor_grids())
+    n = np.shape(F)[1] - 1
+    # admissible voxels in sorted order: (0, 0..n-1), (1, 0..n-1), (2, 0..n-1)
+    return {'lattice': draw(gen.lattices(families=['cubic'], orients=['lower'])), 'F': F, 'threshold': 1e7, 'diagonal': draw(st.booleans()), 'method': draw(st.sampled_from(['minmax-energy', 'minmax-energy', 'dijkstra', 'dijkstra-exp', 'simple'])),
+            'start': draw(st.sampled_from([0, 0, 1])), 'stop': 2 * n + draw(st.sampled_from([0, 0, 2])), 'default_graph': draw(st.booleans()), 'layout': draw(st.sampled_from(['C', 'F']))}
 
 
 @st.composite
@@ -446,6 +471,9 @@ SUBS = [
     Sub(name='two-routes', kind='hyp', run=run_optimal, strategy=two_route_cases,
         rule='periodic rings of 4-9 voxels without blocked voxels: exactly two routes between start and stop, so the five criteria disagree often',
         n={'quick': 150, 'thorough': 3000}, shards={'quick': 4, 'thorough': 16}),
+    Sub(name='corridors', kind='hyp', run=run_optimal, strategy=corridor_cases,
+        rule='grids of 3 - 70 parallel corridors whose barriers decrease while their total energies increase (a barrier-lowering search needs one round per corridor): validity + cost minimality of all methods, minmax-energy twice as often',
+        n={'quick': 12, 'thorough': 200}, shards={'quick': 4, 'thorough': 16}),
     Sub(name='n-paths', kind='hyp', run=run_npaths, strategy=npaths_cases,
         rule='optimal_n_paths (FreeEnergyVolume method with default / explicit graph, module-level functions on an array / a volume): grids with sides 1-4 and at most 7 admissible voxels, 5 methods x 2 neighbourhoods, n_paths 1-4, min_diff 0-0.9: every returned path is a valid path between the requested voxels with the voxel energies, the first one is cost-minimal by own search; wrapped / fractional sites and total_length (sum of minimum-image step lengths) of each',
         n={'quick': 120, 'thorough': 2500}, shards={'quick': 6, 'thorough': 16}),
